@@ -8,7 +8,9 @@ CLAIM = {
                "hook by differential execution of ReadN scripts (exact, error kinds included); chunked-vs-contiguous Go oracle for whole decodes and reader failures",
   "text": "Proved: every ReadN over any chunking reader returns exactly the next n bytes of the stream, leaves exactly the rest, never panics, fails iff fewer than n bytes remain; "
           "any two schedules/buffer sizes answer every request script alike (error kind aside); every buffer size option is well-formed and the decoder's largest request fits "
-          "the reserved section. Lifted to the decoder (C08_decode_buffer_independent, C08_fresh_decoders_agree): in the decoder model one refill delivers min(buffer size, "
+          "the reserved section. A reused buffer (Decoder.Reset with another size option; C08_reset_any_history, C08_reused_like_fresh): whatever array the buffer holds from "
+          "earlier uses, Reset never panics on its slice expression, yields an empty well-formed window of 765 + clamp(size) bytes within the capacity, keeps the array exactly "
+          "when it is large enough, and the reused buffer answers every request script like a fresh one (model tied to the code by Reset/ReadN scripts through the hook). Lifted to the decoder (C08_decode_buffer_independent, C08_fresh_decoders_agree): in the decoder model one refill delivers min(buffer size, "
           "what the reader holds), so the buffer size decides how the stream reaches the decoder; two decoders whose option sets differ in the buffer size only, however much "
           "of the stream each has already buffered, return the same FIT (headers, messages, CRC) and stay related, or errors of one class -- relational proof through every "
           "function of the decoder model. Arbitrary chunk plans directly under Decode and the reader-failure clause are decided per run by the Go oracle (chunked vs "
@@ -19,8 +21,10 @@ CLAIM = {
 
 def run(ctx):
     ctx.cov["rule"] = ("(a) ReadN request scripts (1..25 requests of 0..765 bytes, decoder-like sizes) over streams of 0..3000 bytes x chunk plans {1-byte, all-at-once, refill-"
-                       "boundary sizes 764/765/766/4095/4096/4097, random} x EOF with/after the last bytes x buffer size options {0,1,765,766,1024,4096}; (b) whole decodes of "
-                       "valid, mutated, truncated and chained inputs chunked vs contiguous, and reader failures at a random offset; non-trivial = script longer than 2; distinct by case")
+                       "boundary sizes 764/765/766/4095/4096/4097, random} x EOF with/after the last bytes x buffer size options {0,1,765,766,1024,4096}; (a') Reset/ReadN scripts on one long-lived buffer, 2..4 resets with sizes just "
+                       "below / equal / inside / beyond the 765-byte band above the array in use; (b) whole decodes of "
+                       "valid, mutated, truncated and chained inputs chunked vs contiguous, reader failures at a random offset, a reused decoder (Reset to another buffer size) vs a "
+                       "fresh one, the raw decoder chunked vs contiguous and with the reader failing at every sequence boundary, at the very end and at random offsets; non-trivial = script longer than 2; distinct by case")
     ctx.cov["checker_cmd"] = "coq/build.sh Props/C08.vo Run/RunC08.vo; coqc Props/C08.v; coqc cases_C08_*.v (vm_compute)"
     tr = ctx.prepare(parts=["decconst"])
     ok, _ = ctx.coq(["Props/C08.vo", "Run/RunC08.vo"])
@@ -39,7 +43,7 @@ def run(ctx):
     h = ctx.harness(["c08", "--seed", ctx.seed, "-n", n])
     if h.rc != 0:
         ctx.broken.append("harness c08 failed: " + getattr(h, "stderr", "")[-300:])
-    ctx.count(len(h.cases) + h.stats.get("oracle_chunked_vs_contiguous", 0) + h.stats.get("oracle_reader_failure", 0), [c for c in h.cases if c.count("%nat") > 6])
+    ctx.count(len(h.cases) + len(h.lines.get("REUSE", [])) + h.stats.get("oracle_raw_chunked_vs_contiguous", 0) + h.stats.get("oracle_raw_reader_failure", 0) + h.stats.get("oracle_reused_decoder", 0) + h.stats.get("oracle_chunked_vs_contiguous", 0) + h.stats.get("oracle_reader_failure", 0), [c for c in h.cases if c.count("%nat") > 6])
     found = False
     for f in h.fails[:3]:
         ctx.violation({"source": "direct Go oracle: chunked vs contiguous decode / reader failure / read buffer panic", "failing": f})
@@ -57,6 +61,13 @@ def run(ctx):
             ctx.broken.append("correspondence could not be evaluated: " + str(err)[:300])
         for i in bad[:2]:
             ctx.violation({"source": "correspondence: Model/ReadBuf.v differs from decoder.readBuffer (ReadN script)", "case": h.cases[i][:20000]})
+            found = True
+        reuse = h.lines.get("REUSE", [])
+        bad, err = ctx.run_cases("Run.RunC08", "list rop * list robs", reuse, check="check_reuse", shard=25)
+        if err:
+            ctx.broken.append("correspondence (reused buffer) could not be evaluated: " + str(err)[:300])
+        for i in bad[:2]:
+            ctx.violation({"source": "correspondence: Model/ReadBuf.v (rb_reset / read_n on a long-lived buffer) differs from decoder.readBuffer (Reset / ReadN script)", "case": reuse[i][:20000]})
             found = True
     if ctx.broken and not found:
         ctx.violation({"broken": ctx.broken, "searched": "%d scripts, %d chunked decodes" % (len(h.cases), h.stats.get("oracle_chunked_vs_contiguous", 0))}, no_input=True)
